@@ -348,6 +348,16 @@ func seededStatsGenesis(n int) (string, *Shadow) {
 			counts = append(counts, fmt.Sprintf(`{"source_id":{"protocol_id":"PROTOCOL_IBC","counterparty_id":"%s"},"destination_id":{"protocol_id":"%s","counterparty_id":"%s"},"count":"%d"}`, ch, dn, cp, 1+k))
 		}
 	}
+	// internal-protocol counterparties are free text: two that contain the identifier separator
+	for i, cp := range []string{"hub:osmosis-1", "hub:cosmoshub-4"} {
+		ck := "1|channel-0|4|" + cp
+		ak := ck + "|uusdc"
+		in, out := big.NewInt(int64(5000+i)), big.NewInt(int64(4000+i))
+		sh.In[ak], sh.Out[ak], sh.Fees[ak] = in, out, new(big.Int).Sub(in, out)
+		sh.Count[ck] = uint64(3 + i)
+		amounts = append(amounts, fmt.Sprintf(`{"source_id":{"protocol_id":"PROTOCOL_IBC","counterparty_id":"channel-0"},"destination_id":{"protocol_id":"PROTOCOL_INTERNAL","counterparty_id":"%s"},"denom":"uusdc","amount_dispatched":{"incoming":"%s","outgoing":"%s"}}`, cp, in, out))
+		counts = append(counts, fmt.Sprintf(`{"source_id":{"protocol_id":"PROTOCOL_IBC","counterparty_id":"channel-0"},"destination_id":{"protocol_id":"PROTOCOL_INTERNAL","counterparty_id":"%s"},"count":"%d"}`, cp, 3+i))
+	}
 	gen := fmt.Sprintf(`{"adapter_genesis":{"params":{"max_passthrough_payload_size":0}},"dispatcher_genesis":{"dispatched_amounts":[%s],"dispatched_counts":[%s]},"forwarder_genesis":{"paused_protocol_ids":[],"paused_cross_chain_ids":[]},"executor_genesis":{"paused_action_ids":[]}}`,
 		strings.Join(amounts, ","), strings.Join(counts, ","))
 	return gen, sh
